@@ -658,7 +658,7 @@ Proof.
   assert (HA2 : match a, min_reported older with Some n, Some m => n <=? m | _, _ => true end = true).
   { destruct a as [n|]; [|reflexivity]. destruct (min_reported older) as [m|] eqn:Em; [|reflexivity].
     apply N.leb_le. eapply Hm; reflexivity. }
-  unfold ev_C11. rewrite Hs, Hla. cbv beta iota zeta.
+  unfold ev_C11. rewrite yes_zero_len_res, Hs, Hla. cbn [negb andb]. cbv beta iota zeta.
   apply andb_true_iff. split; [|exact HB].
   apply andb_true_iff. split; [|exact HA2].
   destruct ((n_pending older =? 0)%Z && called_last t tl && negb (has_panic older)) eqn:G; [|reflexivity].
